@@ -200,6 +200,14 @@ func (x *Exec) unitReturn(st *State, fr *Frame, res []Val, in *ssa.Return) {
 		g := x.evalClause(st, fr, cl, binds)
 		x.oblige(st, fr, "post."+cl.Label, "post", cl.Label, g, in, nil)
 	}
+	if c.Fresh {
+		// `fresh` is assumed by callers (the result is an object of its own): proved here
+		for i, r := range res {
+			if pv, ok := r.(PtrV); ok && pv.Ref != "" && !pv.Nil {
+				x.oblige(st, fr, fmt.Sprintf("post.*.fresh.r%d", i), "post", "*.fresh", tOr(tEq(pv.Ref, "0"), tCmp("<=", fr.entry.top, pv.Ref)), in, nil)
+			}
+		}
+	}
 	x.frameCheck(st, fr, c, in)
 }
 
